@@ -33,3 +33,7 @@ pub fn clock_now() -> std::time::Instant {
         base + next
     }
 }
+
+/// `zeroize::optimization_barrier` is an empty inline-assembly statement (a compiler barrier):
+/// nothing to execute symbolically.
+pub fn barrier_stub<T: ?Sized>(_val: &T) {}
